@@ -62,7 +62,7 @@ def showCalls (log : List Event) : String :=
   let l := log.reverse.filterMap fun e =>
     match e with
     | .before i st => some s!"B{i}:{showOpt st}"
-    | .call i => some s!"M{i}"
+    | .call i _ => some s!"M{i}"
     | _ => none
   if l.isEmpty then "-" else ",".intercalate l
 
